@@ -320,8 +320,23 @@ fn input_vectors(input_gates: &[usize], seedtag: u64) -> Vec<Vec<Vec<bool>>> {
         vs.push(split(&vec![false; total]));
         vs.push(split(&vec![true; total]));
         let mut p = Prng::new(seedtag);
-        for _ in 0..48 {
-            let bits: Vec<bool> = (0..total).map(|_| p.chance(1, 2)).collect();
+        // very wide circuits: fewer vectors, 64 bits per draw
+        let n = if total > (1 << 18) { 3 } else { 48 };
+        for _ in 0..n {
+            let bits: Vec<bool> = if total > (1 << 18) {
+                let mut b = Vec::with_capacity(total);
+                while b.len() < total {
+                    let x = p.next_u64();
+                    for i in 0..64 {
+                        if b.len() < total {
+                            b.push((x >> i) & 1 == 1);
+                        }
+                    }
+                }
+                b
+            } else {
+                (0..total).map(|_| p.chance(1, 2)).collect()
+            };
             vs.push(split(&bits));
         }
     }
@@ -1040,7 +1055,7 @@ pub fn tier(t: &str) -> Tier {
     if t == "thorough" {
         Tier { sweep: 480, large: 64, history: 100_000, seeded: 200_000, corrupt: 300_000, text: 200_000, s5: 10_000 }
     } else {
-        Tier { sweep: 32, large: 6, history: 4_000, seeded: 8_000, corrupt: 12_000, text: 8_000, s5: 200 }
+        Tier { sweep: 32, large: 7, history: 4_000, seeded: 8_000, corrupt: 12_000, text: 8_000, s5: 200 }
     }
 }
 
@@ -1383,6 +1398,15 @@ pub fn make_world(plan: &CasePlan, seed: u64, idx: u64) -> (World, &'static str,
             if p.chance(1, 3) {
                 w.prior = draw_priors(plan, &mut p);
             }
+        }
+        "large" if _sub % 3 == 2 => {
+            // wire numbers at the decimal boundaries 10^5, 10^6, 10^7: a party so wide that the gates'
+            // wires straddle the boundary (cheap: the file itself has only a hundred lines)
+            let k = 7 - ((_sub / 3) % 3) as u32;
+            let prog = ProgSpec { name: format!("wide-1e{k}"), src: gen::wide_program(&mut p, k), consts: vec![] };
+            w.program = Some(prog);
+            w.dedup = true;
+            w.file_name = None;
         }
         "large" => {
             // an export of several MiB, written and read back fault-free or under transparent faults
